@@ -24,6 +24,15 @@ class ControlRequestHandler(USBRequestHandler):
                                 of acknowledged.
             """
 
+        # Tracks whether we have answered this request's STATUS stage and the host has not started
+        # another transaction since. Only a handshake that arrives while this is set belongs to our
+        # status stage; handshakes are broadcast to every endpoint, so any other ACK must be ignored.
+        expecting_ack = Signal()
+
+        # Any new token means the host has moved on without ACK'ing our status packet.
+        with m.If(self.interface.tokenizer.new_token):
+            m.d.usb += expecting_ack.eq(0)
+
         # Provide an response to the STATUS stage.
         with m.If(self.interface.status_requested):
 
@@ -32,16 +41,22 @@ class ControlRequestHandler(USBRequestHandler):
                 m.d.comb += self.interface.handshakes_out.stall.eq(1)
             with m.Else():
                 m.d.comb += self.send_zlp()
+                m.d.usb  += expecting_ack.eq(1)
 
-        # Accept the relevant value after the packet is ACK'd...
-        with m.If(self.interface.handshakes_in.ack):
+        # Accept the relevant value after our status packet is ACK'd...
+        with m.If(self.interface.handshakes_in.ack & expecting_ack & ~self.interface.setup.received):
             m.d.comb += [
                 write_strobe      .eq(1),
                 new_value_signal  .eq(self.interface.setup.value)
             ]
+            m.d.usb += expecting_ack.eq(0)
 
             # ... and then return to idle.
             m.next = 'IDLE'
+
+        # A new SETUP packet abandons this request [USB2.0: 8.5.3]; the caller dispatches the new one.
+        with m.If(self.interface.setup.received):
+            m.d.usb += expecting_ack.eq(0)
 
 
     def handle_simple_data_request(self, m, transmitter, data, length=1):
